@@ -21,8 +21,7 @@ theorem filesLoad_encoded (c : Codec) (g : c.Good) (fs : FS) (p text eol : Str) 
       univNL_replace eol text hstd hcr]
   · have hstd' : isStdEol eol = false := by simpa using hstd
     obtain ⟨y', hy', hr⟩ := enc_replace_back c g eol ha text hd y henc
-    apply loadFile_custom c _ p eol _ _ hstd' hd.1 hdisk
-    rw [utf8Enc_ascii eol ha]
+    apply loadFile_custom c _ p eol _ _ hstd' eol (g.enc_ascii eol ha) hd.1 hdisk
     cases heq : eol with
     | nil => exact absurd heq hd.1
     | cons e0 es =>
